@@ -388,6 +388,7 @@ type hReq struct {
 	scalars map[string]uint64
 	size    int
 	rect    bool
+	step    int // macro-op index at which it was submitted
 	payload helpers.SizeGetter
 }
 
@@ -804,6 +805,7 @@ func runScenario(sc *scenario) (res *scenResult) {
 		r := buildReq(nextID, op.ReqKind, lens, op.Size, serial)
 		serial++
 		nextID++
+		r.step = curStep
 		res.reqs[r.id] = r
 		before := snapshot()
 		lo, hi := 0, nSync
@@ -1069,6 +1071,7 @@ func genScenario(rng *h.Rng, maxOps int, allowConnFail bool, big bool) *scenario
 	nsubs := 2 * sc.SvcNum
 	nops := 5 + rng.Intn(maxOps-4)
 	dirty := rng.Chance(12) // scenarios that may contain malformed requests
+	usedBig := !rng.Chance(12)
 	connFails := 0
 	for len(sc.Ops) < nops {
 		sub := rng.Intn(sc.SvcNum) // mostly the sync group, where doPush sends everything
@@ -1083,8 +1086,9 @@ func genScenario(rng *h.Rng, maxOps int, allowConnFail bool, big bool) *scenario
 				if sc.Kind == "profile" {
 					n = 1
 				}
-				if big && rng.Chance(3) {
-					n = 10000
+				if big && !usedBig && rng.Chance(2) {
+					n = 10000 // one very large request in about one sequence out of ten
+					usedBig = true
 				}
 				op := mop{Kind: "req", Mode: "sync", ReqKind: sc.Kind}
 				if rng.Chance(8) {
